@@ -34,9 +34,31 @@ import (
 type recWriter struct {
 	mu     sync.Mutex
 	chunks [][]byte
+	// a slow sink: the stallAt-th UserAction write (1-based, 0 = never) takes stallFor before it completes.  The audit side
+	// writes under the correlator's lock, so for that long it takes no login: accepted lines arriving meanwhile stay in
+	// the hand-off (the first is received by Read's loop, which then waits for the correlator; the next ones pend)
+	stallAt  int
+	stallFor time.Duration
+	actions  int
+	stalled  time.Duration // how long the stall really lasted (0: the write never came)
 }
 
+var actionMark = []byte(`"type":"UserAction"`)
+
 func (w *recWriter) Write(p []byte) (int, error) {
+	if w.stallAt > 0 && bytes.Contains(p, actionMark) {
+		w.mu.Lock()
+		w.actions++
+		hit := w.actions == w.stallAt
+		w.mu.Unlock()
+		if hit {
+			t0 := time.Now()
+			time.Sleep(w.stallFor) // the scenario's input (a slow disk), not synchronisation
+			w.mu.Lock()
+			w.stalled = time.Since(t0)
+			w.mu.Unlock()
+		}
+	}
 	w.mu.Lock()
 	defer w.mu.Unlock()
 	w.chunks = append(w.chunks, append([]byte(nil), p...))
@@ -70,6 +92,9 @@ type scenario struct {
 	Sessions []sessionPlan `json:"sessions"`
 	Burst    bool          `json:"burst"`
 	Debug    bool          `json:"debug_logging,omitempty"`
+	// the audit side is slow to take logins: the StallAtAction-th UserAction write takes StallMs (see recWriter)
+	StallAtAction int `json:"stall_at_user_action,omitempty"`
+	StallMs       int `json:"stall_ms,omitempty"`
 }
 
 // auditLines: the session's records and how many audit events they make.
@@ -126,12 +151,22 @@ type outcome struct {
 	Expected int      `json:"expected_user_actions"`
 	Got      int      `json:"user_actions"`
 	Largest  int      `json:"largest_write"`
+	StalledMs int     `json:"write_stalled_ms,omitempty"`
+	// accepted lines whose hand-off was pending for more than 2 s (time from the call to its return)
+	LongHandoffs int `json:"handoffs_pending_longer_than_2s,omitempty"`
+	Hung         bool `json:"hung,omitempty"`
 }
 
-func runScenario(sc scenario) outcome {
-	auditd.SetLogger(hutil.Logger(sc.Debug))
-	sshd.SetLogger(hutil.Logger(sc.Debug))
-	w := &recWriter{}
+// runScenario: setLoggers = false when several scenarios run at once (the package loggers are process-wide and set by the caller)
+func runScenario(sc scenario, setLoggers bool) outcome {
+	if setLoggers {
+		auditd.SetLogger(hutil.Logger(sc.Debug))
+		sshd.SetLogger(hutil.Logger(sc.Debug))
+	}
+	var sshdMu sync.Mutex // lines of different sshd processes arrive one after the other on the single pipe
+	var longMu sync.Mutex
+	long := 0
+	w := &recWriter{stallAt: sc.StallAtAction, stallFor: time.Duration(sc.StallMs) * time.Millisecond}
 	ew := auditevent.NewDefaultAuditEventWriter(w)
 	logins := make(chan common.RemoteUserLogin) // unbuffered, as in cmd/namedpipe.go
 	audits := make(chan string, 10000)
@@ -162,8 +197,14 @@ func runScenario(sc scenario) outcome {
 			time.Sleep(time.Until(start.Add(time.Duration(p.LoginLate) * time.Microsecond)))
 			sshdMu.Lock()
 			defer sshdMu.Unlock()
+			t0 := time.Now()
 			_ = sp.ProcessSshdLogEntry(ctx, sshd.SshdLogEntry{PID: fmt.Sprint(p.PID),
 				Message: fmt.Sprintf("Accepted password for %s from 10.0.0.%d port %d ssh2", p.user(), p.Ses%250, 1024+p.Ses)})
+			if time.Since(t0) > 2*time.Second {
+				longMu.Lock()
+				long++
+				longMu.Unlock()
+			}
 		}()
 		go func() {
 			defer wg.Done()
@@ -176,7 +217,20 @@ func runScenario(sc scenario) outcome {
 			}
 		}()
 	}
-	wg.Wait()
+	// watchdog: everything is fed within the stall plus a generous bound, or the scenario is reported as hung
+	fed := make(chan struct{})
+	go func() { wg.Wait(); close(fed) }()
+	hung := false
+	select {
+	case <-fed:
+	case <-time.After(w.stallFor + 60*time.Second):
+		hung = true
+		cancel() // releases hand-offs and Read
+		select {
+		case <-fed:
+		case <-time.After(10 * time.Second):
+		}
+	}
 	// wait until the audit side has drained (bounded)
 	deadline := time.Now().Add(3 * time.Second)
 	for time.Now().Before(deadline) {
@@ -196,12 +250,17 @@ func runScenario(sc scenario) outcome {
 	}
 
 	// ---- oracle on the recorded writes
-	out := outcome{Expected: expected}
+	out := outcome{Expected: expected, Hung: hung}
 	w.mu.Lock()
 	chunks := w.chunks
+	out.StalledMs = int(w.stalled / time.Millisecond)
 	w.mu.Unlock()
+	longMu.Lock()
+	out.LongHandoffs = long
+	longMu.Unlock()
 	out.Writes = len(chunks)
 	seenLogin := map[string]bool{}
+	loginWrites := map[string]int{}
 	seenEvent := map[string]int{}
 	add := func(key, msg string) {
 		out.Keys = append(out.Keys, key)
@@ -239,6 +298,12 @@ func runScenario(sc scenario) outcome {
 		switch ev.Type {
 		case "UserLogin":
 			seenLogin[ident] = true
+			// every session has its own sshd PID and one accepted line: a second UserLogin with that identity is the
+			// event written again (however long its hand-off was pending)
+			loginWrites[ident]++
+			if loginWrites[ident] == 2 {
+				add("output:duplicate", fmt.Sprintf("write %d: the UserLogin of %s written twice (one accepted line; audit side stalled %d ms, %d hand-off(s) pending > 2 s)", i, shown, out.StalledMs, out.LongHandoffs))
+			}
 		case "UserAction":
 			out.Got++
 			if !seenLogin[ident] {
@@ -253,10 +318,41 @@ func runScenario(sc scenario) outcome {
 			add("output:unknown-type", "event of type "+ev.Type)
 		}
 	}
+	if hung {
+		add("output:hung", fmt.Sprintf("the scenario's lines were not all processed %v after the stall of %d ms ended", 60*time.Second, sc.StallMs))
+	}
 	return out
 }
 
-var sshdMu sync.Mutex
+// genStallScenario: the audit side is slow to take logins.  One or two sessions whose halves arrive at once (their
+// UserActions start within milliseconds; the first of them stalls in the writer for stallMs), then 2-6 accepted lines of
+// other sshd processes arriving 20-400 ms later, i.e. while the correlator is busy: the first is received by Read's
+// loop, the others pend in the hand-off for about the rest of the stall.  Their audit records arrive early or late.
+func genStallScenario(r *hutil.Rand, stallMs int) scenario {
+	sc := scenario{Burst: r.Bool(), StallAtAction: 1 + r.Intn(2), StallMs: stallMs + r.Intn(400)}
+	early := 1 + r.Intn(2)
+	late := 2 + r.Intn(5)
+	for i := 0; i < early+late; i++ {
+		p := sessionPlan{PID: 2000 + 7*i + r.Intn(5), Ses: 10 + i, Cmds: 1 + r.Intn(5), Disp: r.Chance(2, 3), LoginLate: r.Intn(2000), AuditLate: r.Intn(2000)}
+		if i >= early {
+			p.LoginLate = 20000 + r.Intn(380000)
+			p.AuditLate = []int{r.Intn(3000), p.LoginLate + r.Intn(3000), r.Intn(400000)}[r.Intn(3)]
+		}
+		sc.Sessions = append(sc.Sessions, p)
+	}
+	return sc
+}
+
+func parseStalls(s string) []int {
+	var out []int
+	for _, f := range strings.Split(s, ",") {
+		var n int
+		if _, err := fmt.Sscanf(strings.TrimSpace(f), "%d", &n); err == nil && n > 0 {
+			out = append(out, n)
+		}
+	}
+	return out
+}
 
 func truncate(b []byte) string {
 	if len(b) > 160 {
@@ -288,6 +384,7 @@ func main() {
 	out := flag.String("out", "", "output directory")
 	n := flag.Int("n", 40, "scenarios")
 	replay := flag.String("replay", "", "replay file")
+	stalls := flag.String("stalls", "2500,2800,3300", "scenarios in which the audit side is slow to take logins: milliseconds the writer stalls a UserAction write (>= 2500), one scenario each, run concurrently; \"\" = none")
 	flag.Parse()
 	auditd.SetLogger(zap.NewNop().Sugar())
 	sshd.SetLogger(zap.NewNop().Sugar())
@@ -307,13 +404,17 @@ func main() {
 			fmt.Println("replay file carries no scenario")
 			os.Exit(2)
 		}
-		for i := 0; i < 20; i++ {
-			if o := runScenario(*rp.Replay.Scenario); len(o.Keys) > 0 {
+		tries := 100 // the order of the two pipelines' writes is the scheduler's choice: a run takes some milliseconds
+		if rp.Replay.Scenario.StallMs > 0 {
+			tries = 4 // each run lasts as long as the stall
+		}
+		for i := 0; i < tries; i++ {
+			if o := runScenario(*rp.Replay.Scenario, true); len(o.Keys) > 0 {
 				fmt.Println("REPRODUCED", o.Keys[0], o.Problems[0])
 				os.Exit(1)
 			}
 		}
-		fmt.Println("not reproduced in 20 runs")
+		fmt.Printf("not reproduced in %d runs\n", tries)
 		os.Exit(0)
 	}
 	r := hutil.NewRand(seed ^ 0xC10)
@@ -321,11 +422,13 @@ func main() {
 		"1-8 SSH sessions; per session an accepted-password sshd line and its audit records (LOGIN, 0-5 USER_START, optional CRED_DISP) with random relative delays, in bursts or paced; "+
 			"in one scenario of three LARGE events: account names of 0.1-10 KiB (UserLogin and every UserAction of the session, more commands) and an execve event with an argument list of 3-70 KiB; "+
 			"the real sshd processor and the real Auditd.Read run concurrently on one event writer and an unbuffered logins channel; every Write call on the output is recorded; "+
+			"plus scenarios in which the AUDIT SIDE IS SLOW TO TAKE LOGINS: the recording writer stalls one UserAction write for a generated time >= 2.5 s (under the correlator's lock) while accepted lines of other sshd processes arrive, "+
+			"whose hand-offs pend for that long; oracle as everywhere: one whole JSON line per write, no event twice (UserLogin: one per accepted line), UserLogin before UserAction; "+
 			"non-trivial = at least 2 sessions and at least one UserAction written; distinct by scenario")
 	for i := 0; i < *n; i++ {
 		sc := genScenario(r)
 		sc.Debug = i%3 == 1
-		o := runScenario(sc)
+		o := runScenario(sc, true)
 		sum.Count(fmt.Sprint(sc), len(sc.Sessions) >= 2 && o.Got > 0)
 		sum.Dist(fmt.Sprintf("sessions_%d", len(sc.Sessions)))
 		sum.Dist(fmt.Sprintf("burst_%v", sc.Burst))
@@ -352,6 +455,47 @@ func main() {
 		}
 		if i < 3 {
 			sum.Sample(map[string]any{"scenario": sc, "writes": o.Writes, "user_actions": o.Got, "expected_user_actions": o.Expected})
+		}
+	}
+	// the slow-audit-side scenarios: all at once (each lasts about as long as its stall)
+	if sts := parseStalls(*stalls); len(sts) > 0 {
+		debug := seed%2 == 1
+		auditd.SetLogger(hutil.Logger(debug))
+		sshd.SetLogger(hutil.Logger(debug))
+		scs := make([]scenario, len(sts))
+		outs := make([]outcome, len(sts))
+		for i, ms := range sts {
+			scs[i] = genStallScenario(r, ms)
+			scs[i].Debug = debug
+		}
+		var wg sync.WaitGroup
+		for i := range scs {
+			wg.Add(1)
+			go func(i int) {
+				defer wg.Done()
+				outs[i] = runScenario(scs[i], false)
+			}(i)
+		}
+		wg.Wait()
+		for i, sc := range scs {
+			o := outs[i]
+			sum.Count(fmt.Sprint(sc), o.Got > 0 && o.LongHandoffs > 0)
+			sum.Dist("slow_audit_side_scenario")
+			sum.Dist(fmt.Sprintf("slow_audit_side_stall_%ds", sc.StallMs/1000))
+			if o.StalledMs > 0 {
+				sum.Dist("slow_audit_side_write_stalled")
+			}
+			sum.Distribution["total_handoffs_pending_longer_than_2s"] += o.LongHandoffs
+			for j, k := range o.Keys {
+				msg := k
+				if j < len(o.Problems) {
+					msg = o.Problems[j]
+				}
+				sum.FailKey("oracle", k, msg, map[string]any{"scenario": sc})
+			}
+			if i == 0 {
+				sum.Sample(map[string]any{"scenario": sc, "writes": o.Writes, "user_actions": o.Got, "expected_user_actions": o.Expected, "write_stalled_ms": o.StalledMs, "handoffs_pending_longer_than_2s": o.LongHandoffs})
+			}
 		}
 	}
 	sum.CaseFiles = nil
